@@ -630,7 +630,7 @@ def parseText (text : List Char) : Except PyErr (Block × List Hint) :=
   match initParser {} text with
   | .error e => .error e
   | .ok s0 =>
-    match (do let b ← parseChunk (4 * text.length + 64); assertTok .EOF; pure b : PM Block) s0 with
+    match (do let b ← parseChunk (5 * text.length + 64); assertTok .EOF; pure b : PM Block) s0 with
     | .error e => .error e
     | .ok (b, s1) => .ok (b, s1.hints)
 
